@@ -314,6 +314,125 @@ func (e *Exec) intrinsic(fn *ssa.Function, name string, args []Value) (Value, bo
 			ps = append(ps, p)
 		}
 		return normStr(ps), true
+	case "strings.Count":
+		a := args[0].(Str)
+		sub := e.strArg(args[1], "strings.Count pattern")
+		if a.isLit() {
+			return mkI64(int64(strings.Count(a.litVal(), sub))), true
+		}
+		if sub == "/" {
+			// symbolic pieces never contain the separator (see splitSep)
+			return mkI64(int64(len(a.splitSep("/")) - 1)), true
+		}
+		e.unsupported("strings.Count(%s, %q)", a, sub)
+	case "strings.SplitN":
+		a := args[0].(Str)
+		sep := e.strArg(args[1], "strings.SplitN separator")
+		n := args[2].(Int)
+		if !n.IsC {
+			e.unsupported("strings.SplitN with a symbolic count")
+		}
+		var parts []Str
+		if a.isLit() {
+			for _, p := range strings.SplitN(a.litVal(), sep, int(n.sval())) {
+				parts = append(parts, lit(p))
+			}
+			if strings.SplitN(a.litVal(), sep, int(n.sval())) == nil {
+				return Slice{}, true
+			}
+		} else if sep == "/" {
+			all := a.splitSep("/")
+			k := int(n.sval())
+			switch {
+			case k == 0:
+				return Slice{}, true
+			case k < 0 || k >= len(all):
+				parts = all
+			default:
+				parts = append(parts, all[:k-1]...)
+				rest := all[k-1]
+				for _, f := range all[k:] {
+					rest = strConcat(strConcat(rest, lit("/")), f)
+				}
+				parts = append(parts, rest)
+			}
+		} else {
+			e.unsupported("strings.SplitN of symbolic string by %q", sep)
+		}
+		el := make([]Value, len(parts))
+		for i, p := range parts {
+			el[i] = p
+		}
+		return Slice{Arr: e.newObj(Array{E: el}, "strings.SplitN"), Len: len(el), Cap: len(el)}, true
+	case "strings.FieldsFunc":
+		a := args[0].(Str)
+		cl, ok := args[1].(Closure)
+		if !ok || cl.Fn == nil {
+			e.unsupported("strings.FieldsFunc with a non-closure predicate")
+		}
+		pred := func(r Int) Bool {
+			v := e.call(cl.Fn, []Value{r}, cl.Binds)
+			b, ok := v.(Bool)
+			if !ok {
+				e.unsupported("strings.FieldsFunc predicate result %T", v)
+			}
+			return b
+		}
+		var parts []Str
+		if a.isLit() {
+			var cur []rune
+			flush := func() {
+				if len(cur) > 0 {
+					parts = append(parts, lit(string(cur)))
+					cur = nil
+				}
+			}
+			for _, r := range a.litVal() {
+				b := pred(mkInt(32, true, uint64(uint32(r))))
+				if !b.IsC {
+					e.unsupported("strings.FieldsFunc predicate not concrete on a literal")
+				}
+				if b.C {
+					flush()
+				} else {
+					cur = append(cur, r)
+				}
+			}
+			flush()
+		} else {
+			// the predicate must be exactly "is the ID separator": decided by the solver for an arbitrary rune
+			rn := e.fresh("rune")
+			e.declare(rn, sortBV(32))
+			r := symInt(32, true, rn)
+			b := pred(r)
+			if !e.provable(bEq(b, iCmp("==", r, mkInt(32, true, '/')))) {
+				e.unsupported("strings.FieldsFunc on a symbolic string with a predicate other than r == '/'")
+			}
+			e.stubs["strings.FieldsFunc(s, f) on ID strings: f is shown (by the solver, for an arbitrary rune) to be r == '/'; then the result is Split(s, \"/\") without its empty fields"] = true
+			for _, f := range a.splitSep("/") {
+				if len(f.P) == 0 {
+					continue
+				}
+				allTok := true
+				empty := mkBool(true)
+				for _, p := range f.P {
+					if p.K != pTok {
+						allTok = false
+						break
+					}
+					empty = bAnd(empty, symBool(fmt.Sprintf("tok%d_empty", p.Tok)))
+				}
+				if allTok && e.decide(empty) {
+					continue
+				}
+				parts = append(parts, f)
+			}
+		}
+		el := make([]Value, len(parts))
+		for i, p := range parts {
+			el[i] = p
+		}
+		return Slice{Arr: e.newObj(Array{E: el}, "strings.FieldsFunc"), Len: len(el), Cap: len(el)}, true
 	case "strings.Contains", "strings.HasPrefix", "strings.HasSuffix":
 		a, b := args[0].(Str), args[1].(Str)
 		if a.isLit() && b.isLit() {
